@@ -62,7 +62,8 @@ def cfgs(enc):
 
 def cases(enc):
     return st.fixed_dictionaries(
-        {"enc": st.just(enc), "cfg": cfgs(enc), "spec": gv.modules(enc)})
+        {"enc": st.just(enc), "cfg": cfgs(enc), "spec": gv.modules(enc),
+         "twice": st.sampled_from([False, False, False, True])})
 
 
 def value_feature(v):
@@ -94,6 +95,13 @@ def run_case(case, reader=None, prop="C01", check_errors=False):
         return ("skip", f"build: {type(e).__name__}")
     try:
         encoder = make_encoder(enc, **case["cfg"])
+        if case.get("twice"):
+            # the encoder object has been used before - for this very module, whatever
+            # came of it: what counts is what it writes now
+            try:
+                encoder.encode(gv.build_module(spec))
+            except Exception:
+                pass
         text = encoder.encode(m)
     except (ValueError, TypeError) as e:
         return ("refused", type(e).__name__)
